@@ -194,6 +194,7 @@ var Seeds = [][]string{
 	9: {"a000", "a0aa", "aa"}, // ext(1) -> branch{0: ext(1)->branch, a: leaf}
 	10: {"0000"},              // single long leaf
 	11: {"00aa", "aa00"},      // root branch of two long leaves
+	12: {"00", "a0", "90"},    // root branch; the third leaf went into an empty slot; slot f is still empty
 }
 
 // ApplySeed inserts seed number i (concrete values) into t and the reference.
